@@ -13,7 +13,8 @@ def opt(x, f):
 
 def snap_coq(o):
     views = Emitter.lst("(%d, %s)" % (v["k"], Emitter.nlist(v["v"])) for v in o["views"])
-    return "(mkSnap %s %s %d %s)" % (views, Emitter.nlist(o["responded"]), o["pending"], Emitter.nlist(o["myview"]))
+    return "(mkSnap %s %s %d %s %s %d)" % (views, Emitter.nlist(o["responded"]), o["pending"], Emitter.nlist(o["myview"]),
+                                            Emitter.nlist(o["queried"]), o["pending_q"])
 
 
 def async_coq(em, o):
@@ -32,7 +33,7 @@ def op_coq(em, o):
     if k == "pass":
         return "OPass %s" % Emitter.nlist(o["iv"])
     if k == "drain":
-        return "ODrain %s" % Emitter.lst(Emitter.nlist(d) for d in o["drained"])
+        return "ODrain %s %s" % (Emitter.lst(Emitter.nlist(d) for d in o["drained"]), Emitter.lst(Emitter.nlist(d) for d in o["drained_q"]))
     if k == "start":
         return "OStart %s %s" % (snap_coq(o), async_coq(em, o))
     if k == "cancel":
@@ -74,7 +75,7 @@ def monitor_steps(sc):
             hits.append(dict(what="continuation invoked after Synchronize returned", op=i))
         if o["ret"]:
             returned = True
-        if o["ret"] == 2 and conts:
+        if o["ret"] >= 2 and conts:
             hits.append(dict(what="continuation invoked although an error is returned", op=i))
         if o["ret"] == 1 and conts != 1:
             hits.append(dict(what="nil returned with %d continuation calls" % conts, op=i))
@@ -125,12 +126,13 @@ def monitor_run(run):
                 if b != o["id"] and b in outs and outs[b]["cont"] is not None and outs[b]["cont"] != o["cont"]:
                     hits.append(dict(what="agreement: two honest members, one in the other's list, completed with different lists",
                                      a=o["id"], la=o["cont"], b=b, lb=outs[b]["cont"]))
-    if run["class"] == "exact":
+    if run["class"] in ("exact", "teardown"):
         want = sorted(run["running"])
         for o in run["outcomes"]:
             if o["cont"] != want:
-                hits.append(dict(what="liveness: exactly the expected honest members ran, every message was delivered, but a member "
-                                      "did not complete with the full list", member=o["id"], got=o["cont"], err=o["err_text"]))
+                hits.append(dict(what="liveness: exactly the expected honest members ran, every message was delivered%s, but a member "
+                                      "did not complete with the full list" % (" (each member stops being served once it is through)" if run["teardown"] else ""),
+                                 member=o["id"], got=o["cont"], err=o["err_text"]))
     if run["class"] == "few":
         for o in run["outcomes"]:
             if o["err"] == "ok" or o["ncont"]:
@@ -223,7 +225,7 @@ def run(pid, tier, seed):
     chk.cov["distinct_nontrivial"] = len(set(vlib.canon_hash([(o["op"], o["from"], o["data"]) for o in sc["ops"]] + [sc["self"], sc["expected"]])
                                              for sc in scen if nontrivial(sc))) + \
         len(set(vlib.canon_hash([r["class"], r["members"], r["running"], r["byz"], r["byz_kind"], r["expected"]]) for r in runs
-                if any(o["cont"] is not None for o in r["outcomes"]) or r["class"] != "exact"))
+                if any(o["cont"] is not None for o in r["outcomes"]) or r["class"] not in ("exact", "teardown")))
     chk.cov["rule"] = ("(a) operation lists executed on a real disc.Member: step mode = topic registered through a verif hook, "
                        "HandleMessage(from, bytes) / freeze / intersectedView with the frozen copy (a HandleMessage landed between its "
                        "passes) / intersectedView / drain, all synchronous; sync mode = a real Synchronize goroutine (probe interval 100 us) "
@@ -232,7 +234,8 @@ def run(pid, tier, seed):
                        "broadcast, query broadcast, continuation argument, return class) compared with the Coq model; non-trivial = some view "
                        "stored, response sent, intersectedView non-empty, query or continuation reached; distinct by (configuration, "
                        "operation list). (b) whole runs of 2..6 configured members with real Synchronize goroutines over a seeded in-memory "
-                       "router (classes exact / too few / too many / with scripted Byzantine members), checked by monitors only; distinct by "
+                       "router (classes exact / exact with teardown: a member is no longer handed messages once its Synchronize is through / too few / "
+                       "too many / with scripted Byzantine members), checked by monitors only; distinct by "
                        "configuration. evaluations = operations executed + member outcomes of whole runs")
     sync = [sc for sc in scen if sc["mode"] == "sync"]
     chk.cov["input_distribution"] = dict(
@@ -244,8 +247,9 @@ def run(pid, tier, seed):
         sync_plans=dict(collections.Counter(sc["plan"] for sc in sync)),
         sync_reached=dict(query=sum(1 for sc in sync if any(o["query"] for o in sc["ops"])),
                           continued=sum(1 for sc in sync if any(o["cont"] is not None for o in sc["ops"])),
-                          error=sum(1 for sc in sync if any(o["ret"] == 2 for o in sc["ops"])),
-                          too_many=sum(1 for sc in sync if any(o["ret_text"].startswith("too many") for o in sc["ops"]))),
+                          returns=dict(collections.Counter({1: "nil", 2: "context ended in the first loop", 3: "too many members",
+                                                            4: "acknowledgements missing", 5: "queries missing", 6: "other"}[o["ret"]]
+                                                           for sc in sync for o in sc["ops"] if o["ret"]))),
         pass2_nonempty=sum(1 for o in ops if o["op"] == "pass2" and o["iv"]),
         pass2_differs_from_live_pass=sum(1 for sc in scen for a, b in zip(sc["ops"], sc["ops"][1:])
                                          if a["op"] == "pass2" and b["op"] == "pass" and a["iv"] != b["iv"]),
@@ -275,6 +279,9 @@ ASSUME = [
     "real time is not modelled: the deadline is the event CtxDone; liveness (C07_live_partial) is stated for the runs in which it does "
     "not occur before a fair schedule is through, with per-link FIFO delivery; C07_exact_run_only_deadline shows that in such runs the "
     "deadline is the only way to fail, for every interleaving",
+    "teardown (the orchestrator stops serving the topic) is the event Stop, possible only after Synchronize has returned; teardown "
+    "safety (C07_teardown_safe) is proved for exact honest runs; with Byzantine configured members it does not hold "
+    "(C07_teardown_byzantine_refuted): queries and acknowledgements are counted from any configured peer, not only from list members",
     "the model (coq/theories/Disc/Model.v, Wire.v) is hand-written and tied to disc/discovery.go by the differential runs of this "
     "check, not by translation; sync.Map.Range is modelled by its documented contract (keys present at the start are visited, each "
     "value read at some moment of the call)",
